@@ -1006,6 +1006,61 @@ impl Check for C09 {
     }
 }
 
+/// a module exporting 4-9 types and constants with similar names, and an entry that asks for 1-3 names the module does
+/// not export (as a type import, a value read, a re-export, an `import()` type, a namespace member)
+fn near_miss_imports(s: &mut Src) -> Vec<(String, String)> {
+    let stem = *s.pick(&["User", "Item", "Node"]);
+    let variants = ["Dto", "Id", "s", "x", "_", "Input", "A", "B", "Map"];
+    let mut m = String::new();
+    let n = s.range(4, 9);
+    let mut exported: Vec<String> = vec![];
+    for i in 0..n {
+        let name = match s.below(5) {
+            0 => stem.to_lowercase() + variants[i % variants.len()],
+            1 => stem.to_uppercase() + variants[i % variants.len()],
+            _ => format!("{}{}", stem, variants[i % variants.len()]),
+        };
+        if exported.contains(&name) {
+            continue;
+        }
+        if s.chance(1, 4) {
+            m.push_str(&format!("export const {} = {} as const;\n", name, s.pick(&["1", "\"v\"", "{ a: 1 }"])));
+        } else {
+            m.push_str(&format!("export type {} = {};\n", name, s.pick(&["string", "number", "{ a: string }", "\"a\" | \"b\""])));
+        }
+        exported.push(name);
+    }
+    let missing = [stem.to_string(), stem.to_lowercase(), format!("{}D", stem), stem[..stem.len() - 1].to_string()];
+    let mut entry = String::from("import * as ns from \"./m\";\n");
+    let k = s.range(1, 3);
+    let mut ps = vec![];
+    for i in 0..k {
+        let want = s.pick(&missing).to_string();
+        match s.below(6) {
+            0 => {
+                entry.push_str(&format!("import {{ {} as W{} }} from \"./m\";\n", want, i));
+                ps.push(format!("P{}: W{}", i, i));
+            }
+            1 => {
+                entry.push_str(&format!("import type {{ {} as W{} }} from \"./m\";\n", want, i));
+                ps.push(format!("P{}: W{}[]", i, i));
+            }
+            2 => ps.push(format!("P{}: import(\"./m\").{}", i, want)),
+            3 => ps.push(format!("P{}: ns.{}", i, want)),
+            4 => {
+                entry.push_str(&format!("import {{ {} as V{} }} from \"./m\";\n", want, i));
+                ps.push(format!("P{}: typeof V{}", i, i));
+            }
+            _ => ps.push(format!("P{}: typeof ns.{}", i, want)),
+        }
+    }
+    if let Some(ok) = exported.first() {
+        ps.push(format!("Q: ns.{}", ok));
+    }
+    entry.push_str(&format!("parse.buildParsers<{{ {} }}>();\n", ps.join("; ")));
+    vec![("entry.ts".to_string(), entry), ("m.ts".to_string(), m)]
+}
+
 // ------------------------------------------------------------------------------------------------
 // C10 — compilation output is a deterministic function of the sources
 // ------------------------------------------------------------------------------------------------
@@ -1105,8 +1160,11 @@ impl Check for C10 {
     }
     fn generate(&self, s: &mut Src, _tier: Tier) -> Value {
         let (sf, nf) = formats_json();
-        let (files, kind): (Vec<(String, String)>, &str) = match s.below(9) {
+        let (files, kind): (Vec<(String, String)>, &str) = match s.below(10) {
             0..=3 => (C09.gen_case(s).files, "layout"),
+            // names that are not exported, next to several exported names that resemble them (prefixes, other case, one
+            // character apart), of both kinds: whatever a diagnostic says about the neighbours, it says in every run
+            9 => (near_miss_imports(s), "near_miss_imports"),
             4 | 5 => (ns_stress(s), "namespace_stress"),
             // a body evaluated once per key of a mapped type: the first error and the numbering of generated helper
             // types follow the order the keys are visited in
